@@ -105,6 +105,14 @@ fn p_conv<A: ColApi + From<B>, B: ColApi + From<A>>(start: u64, count: u64, stri
                     if cb[0] != want {
                         return fail("luma", v64, format!("{:?} -> {:?}, 8 bit luma {} scales to {}", c, d, l8, want));
                     }
+                    // end to end against exact arithmetic: within 1/2 + max/255 target steps of the exactly scaled BT.601 luma
+                    let den = 256i128 * ma[0] as i128 * ma[1] as i128 * ma[2] as i128;
+                    let num = 77i128 * ca[0] as i128 * (ma[1] * ma[2]) as i128
+                        + 150i128 * ca[1] as i128 * (ma[0] * ma[2]) as i128
+                        + 29i128 * ca[2] as i128 * (ma[0] * ma[1]) as i128;
+                    if 2 * 255 * (cb[0] as i128 * den - mb[0] as i128 * num).abs() > (2 * mb[0] as i128 + 255) * den {
+                        return fail("luma_error_bound", v64, format!("{:?} -> {:?}, exact luma {}/{} of {}", c, d, num, den, mb[0]));
+                    }
                     // monotone in every channel (checked directly, independent of the reference formula)
                     for k in 0..3 {
                         if ca[k] < ma[k] {
